@@ -381,6 +381,56 @@ def r_copyall(prog, R):
     r.require(n >= 1, "no member-wise function table copy found")
 
 
+def r_exportorder(prog, R):
+    r = R.rule("R-C16-EXPORTORDER", "whatever hands the server list back to the application (csv, address lists, saved options, and through them ares_dup) lists the servers in "
+               "configuration order, not in the order of the health-sorted container", floor=3, analysis="comparator key order of channel->servers x walkers that export")
+    # comparator registered for channel->servers
+    cmpf = None
+    for f in prog.funcs.values():
+        for b, i, el in f.elements():
+            if el["k"] == "asg" and is_field(el["e"]["l"], "servers", "ares_channeldata"):
+                rr = strip(el["e"].get("r"))
+                if rr is not None and rr.get("k") == "call":
+                    full = f.call_by_id(rr["id"]) if rr.get("ref") else None
+                    cn = full[2] if full else rr
+                    if cn.get("callee") == "ares_slist_create" and len(cn.get("args", [])) >= 2:
+                        a = strip(cn["args"][1])
+                        if a is not None and a.get("k") in ("fn", "var"):
+                            cmpf = prog.func(a["n"], file=f.file, required=False) or prog.func(a["n"], required=False)
+    if not r.require(cmpf is not None, "comparator of channel->servers not found"):
+        return
+    first = None
+    for bid in cmpf.rpo():
+        br = cmpf.branch(bid)
+        if br:
+            for nd in walk(br[0]):
+                if nd.get("k") == "mem" and first is None:
+                    first = nd["f"]
+            if first:
+                break
+    r.info["servers_sorted_by_first"] = first
+    health_order = first != "idx"
+    n = 0
+    for f in sorted(prog.funcs.values(), key=lambda x: x.key):
+        if f.file not in ("src/lib/ares_update_servers.c", "src/lib/ares_options.c"):
+            continue
+        walks = [c for _, _, c in f.calls_to("ares_slist_node_first") if c.get("args") and is_field(c["args"][0], "servers", "ares_channeldata")]
+        if not walks:
+            continue
+        exports = (f.ret.endswith("*") and f.ret != "void *" and "ares_slist_node" not in f.ret and "ares_server" not in f.ret) or any(p["ty"].count("*") >= 2 for p in f.params)
+        const_chan = any("const" in p["ty"] and "ares_channel" in p["ty"] for p in f.params)
+        if not (exports and const_chan):
+            continue
+        n += 1
+        k = "fn=%s exports the servers in configuration order" % f.name
+        sorts = any("sort" in (c.get("callee") or "") or "config_order" in (c.get("callee") or "") for _, _, c in f.calls())
+        if health_order and not sorts:
+            r.viol(k, f.name, f.loc(walks[0]["ln"]), "%s walks channel->servers from first to last; that list is sorted by %s before the configuration index, so after a server has failed the exported list (and a channel duplicated or re-created from it) has a different order than the one configured" % (f.name, first))
+        else:
+            r.ok(k, f.loc(walks[0]["ln"]))
+    r.require(n >= 3, "fewer than 3 exporters of the server list found")
+
+
 def run(prog, R, tier):
     R.assume("string-level round trip of the server list (CSV/URI rendering) is not decided here")
     init = r_mask(prog, R)
@@ -388,4 +438,5 @@ def run(prog, R, tier):
     r_ident(prog, R)
     r_dup(prog, R, init)
     r_copyall(prog, R)
+    r_exportorder(prog, R)
     outinit.outinit_rule(prog, R, "R-C16-OUTINIT", only_types=("ares_sconfig_t", "ares_options", "apattern"), floor=2)
